@@ -383,6 +383,11 @@ class Result:
         if len(self.samples) < cap:
             self.samples.append(obj)
 
+    def ensure_sample(self, case, note='first case of the shard (no case matched the preferred sampling filter)'):
+        """Evidence must always show at least one actual case: fall back to this one."""
+        if not self.samples and case is not None:
+            self.samples.append({'type': case.type, 'program': [o[:160] for o in case.ops[:12]], 'note': note})
+
     def merge(self, other):
         for k, v in other.counters.items():
             self.counters[k] = self.counters.get(k, 0) + v
@@ -509,6 +514,8 @@ def finish(prop, tier, seed, res, rule, t0, assumptions, min_events=None, exhaus
                    'pattern of its bits) and observations as value[bits]; counters / distinct_sets / worst_ratio are measured by this run; '
                    'worst_ratio = max |error| / (n*kappa*2^-53*scale) over non-vacuous envelopes (bound = C times that, DESIGN.md section 2)'),
     }
+    if not coverage['samples']:
+        coverage['samples'] = [{'note': 'no individual case was recorded as a sample in this run; see counters for what was observed'}]
     if exhaustive:
         coverage['exhaustive'] = True
     if extra:
